@@ -70,7 +70,9 @@ static void *t_mutex(void *c) { return ((qtreetbl_t *)c)->qmutex; }
 static void t_lock(void *c) { ((qtreetbl_t *)c)->lock(c); } static void t_unlock(void *c) { ((qtreetbl_t *)c)->unlock(c); }
 static void t_walk(qtreetbl_t *t, int nm, res_t *r) {
     qtreetbl_obj_t o; memset(&o, 0, sizeof o); r->s[0] = 0; r->failed = 0; int n = 0;
-    for (;;) { errno = 0; if (!t->getnext(t, &o, nm)) { if (errno == ENOMEM) r->failed = 1; break; } if (++n > 10) break; radd(r, "%s=%.*s,", o.name ? (char *)o.name : "NULL", (int)o.datasize, o.data ? (char *)o.data : "NULL"); if (nm) { free(o.name); free(o.data); } }
+    /* a getnext that fails with ENOMEM leaves the cursor on its element: the caller may call again (after a single failure that succeeds and the walk must be complete) */
+    int retries = 0;
+    for (;;) { errno = 0; if (!t->getnext(t, &o, nm)) { if (errno == ENOMEM) { if (++retries <= 2) continue; r->failed = 1; } break; } if (++n > 10) break; radd(r, "%s=%.*s,", o.name ? (char *)o.name : "NULL", (int)o.datasize, o.data ? (char *)o.data : "NULL"); if (nm) { free(o.name); free(o.data); } }
 }
 static void t_put(void *c, int a, int b, res_t *r) { qtreetbl_t *t = c; switch (b) { case 0: rb(r, t->put(t, KS[a], "w2", 3)); break; case 1: rb(r, t->putstr(t, KS[a], "w2")); break; case 2: rb(r, t->putstrf(t, KS[a], "w%d", 2)); break; case 3: rb(r, t->putobj(t, KS[a], strlen(KS[a]) + 1, "w2", 3)); break; case 4: rb(r, t->putobj(t, KS[a], strlen(KS[a]) + 1, NULL, 0)); break; } }
 static void t_putnull(void *c, int a, int b, res_t *r) { qtreetbl_t *t = c; (void)a; if (b == 0) rb(r, t->put(t, NULL, "x", 2)); else rb(r, t->putobj(t, "x", 0, "x", 2)); }
